@@ -464,7 +464,7 @@ func (c *Client) opendir(ctx context.Context, path string) (string, error) {
 		}
 		return handle, nil
 	case sshFxpStatus:
-		return "", normaliseError(unmarshalStatus(id, data))
+		return "", statusOnlyError(id, data)
 	default:
 		return "", unimplementedPacketErr(typ)
 	}
@@ -504,7 +504,7 @@ func (c *Client) Lstat(p string) (os.FileInfo, error) {
 		}
 		return fileInfoFromStat(attr, path.Base(p)), nil
 	case sshFxpStatus:
-		return nil, normaliseError(unmarshalStatus(id, data))
+		return nil, statusOnlyError(id, data)
 	default:
 		return nil, unimplementedPacketErr(typ)
 	}
@@ -539,7 +539,7 @@ func (c *Client) ReadLink(p string) (string, error) {
 		}
 		return filename, nil
 	case sshFxpStatus:
-		return "", normaliseError(unmarshalStatus(id, data))
+		return "", statusOnlyError(id, data)
 	default:
 		return "", unimplementedPacketErr(typ)
 	}
@@ -709,7 +709,7 @@ func (c *Client) open(path string, pflags uint32) (*File, error) {
 		}
 		return &File{c: c, path: path, handle: handle}, nil
 	case sshFxpStatus:
-		return nil, normaliseError(unmarshalStatus(id, data))
+		return nil, statusOnlyError(id, data)
 	default:
 		return nil, unimplementedPacketErr(typ)
 	}
@@ -753,7 +753,7 @@ func (c *Client) stat(path string) (*FileStat, error) {
 		attr, _, err := unmarshalAttrs(data)
 		return attr, err
 	case sshFxpStatus:
-		return nil, normaliseError(unmarshalStatus(id, data))
+		return nil, statusOnlyError(id, data)
 	default:
 		return nil, unimplementedPacketErr(typ)
 	}
@@ -777,7 +777,7 @@ func (c *Client) fstat(handle string) (*FileStat, error) {
 		attr, _, err := unmarshalAttrs(data)
 		return attr, err
 	case sshFxpStatus:
-		return nil, normaliseError(unmarshalStatus(id, data))
+		return nil, statusOnlyError(id, data)
 	default:
 		return nil, unimplementedPacketErr(typ)
 	}
@@ -811,7 +811,7 @@ func (c *Client) StatVFS(path string) (*StatVFS, error) {
 
 	// the resquest failed
 	case sshFxpStatus:
-		return nil, normaliseError(unmarshalStatus(id, data))
+		return nil, statusOnlyError(id, data)
 
 	default:
 		return nil, unimplementedPacketErr(typ)
@@ -984,7 +984,7 @@ func (c *Client) RealPath(path string) (string, error) {
 		}
 		return filename, nil
 	case sshFxpStatus:
-		return "", normaliseError(unmarshalStatus(id, data))
+		return "", statusOnlyError(id, data)
 	default:
 		return "", unimplementedPacketErr(typ)
 	}
@@ -2279,6 +2279,17 @@ func (f *File) Sync() error {
 
 // normaliseError normalises an error into a more standard form that can be
 // checked against stdlib errors like io.EOF or os.ErrNotExist.
+// statusOnlyError decodes a STATUS reply to a request whose success reply carries data
+// (HANDLE, ATTRS, NAME, EXTENDED_REPLY). Such a request can only be refused with a STATUS,
+// so SSH_FX_OK must not come out as a nil error next to a nil result.
+func statusOnlyError(id uint32, data []byte) error {
+	err := normaliseError(unmarshalStatus(id, data))
+	if err == nil {
+		return errors.New("sftp: unexpected SSH_FX_OK status in reply to a request that returns data")
+	}
+	return err
+}
+
 func normaliseError(err error) error {
 	switch err := err.(type) {
 	case *StatusError:
